@@ -445,6 +445,9 @@ func (t *tr) stmt(s ast.Stmt) string {
 		if !ok {
 			t.fail(x, "expression statement")
 		}
+		if isGosched(call) {
+			return "SSkip"
+		}
 		id, ok := call.Fun.(*ast.Ident)
 		if !ok {
 			t.fail(x, "call statement of a non-identifier")
@@ -602,4 +605,15 @@ func mapq(l []string) []string {
 		r[i] = q(s)
 	}
 	return r
+}
+
+// isGosched: the statement `runtime.Gosched()` - a scheduling hint with no effect on any state the embeddings model; the
+// translators skip it (a behaviour-preserving "yield here" must not take a function out of the fragment).
+func isGosched(call *ast.CallExpr) bool {
+	sel, ok := call.Fun.(*ast.SelectorExpr)
+	if !ok || len(call.Args) != 0 {
+		return false
+	}
+	pkg, ok := sel.X.(*ast.Ident)
+	return ok && pkg.Name == "runtime" && pkg.Obj == nil && sel.Sel.Name == "Gosched"
 }
